@@ -372,19 +372,18 @@ fn skipped_bad_offset(bad: u16, skip: bool, pipe: bool) {
     kani::cover!(d[70] == 0x5A, "arbitrary payload bytes");
 }
 
-//@ harness: c04_step_skipped_bad_offset props=C04,C03 tier=quick class=functional covers=1 mem=14 timeout=1800 est=200 args=-Z,restrict-vtable
-//@ bounds: ONE load_cdp from arbitrary P with a link filter; the first packet is NOT selected and its offset_to_next is 0 / 63 / 10065 (both sides of the accepted range; contents otherwise symbolic), file-like reader, payloads loaded: Err(InvalidData), no panic, no seek
-S!(c04_step_skipped_bad_offset, 2, {
-    skipped_bad_offset(0, false, false);
-    skipped_bad_offset(63, false, false);
-    skipped_bad_offset(10065, false, false);
-});
-//@ harness: c04_step_skipped_bad_offset_pipe props=C04,C03 tier=thorough class=functional covers=1 mem=14 timeout=1800 est=200 args=-Z,restrict-vtable
-//@ bounds: same on a pipe-like reader with payloads skipped (offsets 0 and 63)
-S!(c04_step_skipped_bad_offset_pipe, 2, {
-    skipped_bad_offset(0, true, true);
-    skipped_bad_offset(63, true, true);
-});
+//@ harness: c04_step_skipped_bad_offset_0 props=C04,C03 tier=quick class=functional covers=1 mem=20 timeout=1800 est=200 args=-Z,restrict-vtable
+//@ bounds: ONE load_cdp from arbitrary P with a link filter; the first packet is NOT selected and its offset_to_next is 0 (contents otherwise symbolic), file-like reader, payloads loaded: Err(InvalidData), no panic, no seek backwards
+S!(c04_step_skipped_bad_offset_0, 2, skipped_bad_offset(0, false, false));
+//@ harness: c04_step_skipped_bad_offset_63 props=C04,C03 tier=quick class=functional covers=1 mem=20 timeout=1800 est=200 args=-Z,restrict-vtable
+//@ bounds: same with offset_to_next = 63 (just below the accepted range)
+S!(c04_step_skipped_bad_offset_63, 2, skipped_bad_offset(63, false, false));
+//@ harness: c04_step_skipped_bad_offset_hi props=C04,C03 tier=thorough class=functional covers=1 mem=20 timeout=1800 est=200 args=-Z,restrict-vtable
+//@ bounds: same with offset_to_next = 10065 (just above the accepted range)
+S!(c04_step_skipped_bad_offset_hi, 2, skipped_bad_offset(10065, false, false));
+//@ harness: c04_step_skipped_bad_offset_pipe props=C04,C03 tier=thorough class=functional covers=1 mem=20 timeout=1800 est=200 args=-Z,restrict-vtable
+//@ bounds: same on a pipe-like reader with payloads skipped (offset 0)
+S!(c04_step_skipped_bad_offset_pipe, 2, skipped_bad_offset(0, true, true));
 
 //@ harness: c03_offset_range props=C03,C04 tier=quick class=functional covers=2 mem=8 timeout=600 est=40
 //@ bounds: all 2^512 headers: sanity_check_offset_next accepts exactly offset_to_next in 64..=10064
@@ -493,7 +492,7 @@ S!(c18_trunc_rdh, 2, {
     trunc_at(&d, 74, 63);
     kani::cover!(d[70] == 0x77, "arbitrary payload byte");
 });
-//@ harness: c18_trunc_payload_first props=C18 also=C03,C04 tier=quick class=functional covers=1 mem=24 timeout=1500 est=200 args=-Z,restrict-vtable
+//@ harness: c18_trunc_payload_first props=C18,C16 also=C03,C04 tier=quick class=functional covers=1 mem=24 timeout=1500 est=200 args=-Z,restrict-vtable
 //@ bounds: same stream cut right after the RDH (64): RDH delivered with empty payload + exactly one [E100]
 S!(c18_trunc_payload_first, 2, {
     let d = trunc_stream();
